@@ -83,12 +83,21 @@ static char *verif_exact_string(size_t maxlen)
 {
   size_t len = nondet_size_t(), i; char *s;
   __CPROVER_assume(len <= maxlen && maxlen <= 12);
-  switch (len) {
-  case 0: s = malloc(1); break;   case 1: s = malloc(2); break;   case 2: s = malloc(3); break;   case 3: s = malloc(4); break;
-  case 4: s = malloc(5); break;   case 5: s = malloc(6); break;   case 6: s = malloc(7); break;   case 7: s = malloc(8); break;
-  case 8: s = malloc(9); break;   case 9: s = malloc(10); break;  case 10: s = malloc(11); break; case 11: s = malloc(12); break;
-  default: s = malloc(13); break;
-  }
+  /* if-chain guarded by the (constant) maxlen: symbolic execution prunes the allocations a call site cannot use */
+  if (len == 0) s = malloc(1);
+  else if (maxlen >= 1 && len == 1) s = malloc(2);
+  else if (maxlen >= 2 && len == 2) s = malloc(3);
+  else if (maxlen >= 3 && len == 3) s = malloc(4);
+  else if (maxlen >= 4 && len == 4) s = malloc(5);
+  else if (maxlen >= 5 && len == 5) s = malloc(6);
+  else if (maxlen >= 6 && len == 6) s = malloc(7);
+  else if (maxlen >= 7 && len == 7) s = malloc(8);
+  else if (maxlen >= 8 && len == 8) s = malloc(9);
+  else if (maxlen >= 9 && len == 9) s = malloc(10);
+  else if (maxlen >= 10 && len == 10) s = malloc(11);
+  else if (maxlen >= 11 && len == 11) s = malloc(12);
+  else if (maxlen >= 12 && len == 12) s = malloc(13);
+  else { __CPROVER_assume(0); s = (char *)0; }
   __CPROVER_assume(s != 0);
   for (i = 0; i < len; i++) { s[i] = nondet_char(); __CPROVER_assume(s[i] != 0); }
   s[len] = 0;
